@@ -374,6 +374,10 @@ func (p *parser) validateBinaryType(binaryExp *BinaryExpression) {
 
 	leftType := binaryExp.Left.Type()
 	rightType := binaryExp.Right.Type()
+	if leftType == NONE_TYPE || rightType == NONE_TYPE { // e.g. (f) == (f) with a function f that returns nothing
+		p.appendErrorForToken(fmt.Sprintf("%q takes operands with a value, found none", op), tok)
+		return
+	}
 	if !(leftType.matches(rightType) || (leftType.Name == ARRAY && op == OP_ASTERISK)) {
 		msg := fmt.Sprintf("mismatched type for %s: %s, %s", op, leftType, rightType)
 		p.appendErrorForToken(msg, tok)
@@ -447,6 +451,10 @@ func (p *parser) parseArrayLiteral() Node {
 		n := p.parseExprWSS()
 		if n == nil {
 			return nil // previous error
+		}
+		if n.Type() == NONE_TYPE { // e.g. [(f)] with a function f that returns nothing
+			p.appendErrorForToken("array elements must have a value, found none", n.Token())
+			return nil
 		}
 		elements = append(elements, n)
 		multi = append(multi, multilineEl)
@@ -546,6 +554,10 @@ func (p *parser) parseMapPairs(mapLit *MapLiteral) bool {
 		n := p.parseExprWSS()
 		if n == nil {
 			return false // previous error
+		}
+		if n.Type() == NONE_TYPE { // e.g. {a:(f)} with a function f that returns nothing
+			p.appendErrorForToken("map values must have a value, found none", n.Token())
+			return false
 		}
 		mapLit.Pairs[key] = n
 		mapLit.Order = append(mapLit.Order, key)
